@@ -1596,6 +1596,89 @@ func (e *env08) runMixed(idx int, mv mixedVec) error {
 
 const listRaceSig = "C08:work-list-error-while-another-session-releases-a-unit"
 
+// raceDiskOnly: several sessions ask for the SAME disk-only unit at the same instant (every command that goes through
+// findUnit), round after round with a fresh unit: all are answered (the unit is loaded once or several times, never
+// half), and fresh sessions are served afterwards.  This is the shared-unit case of the lock model (two scans of one
+// unit overlap between the look-up under the read lock and the insertion under the write lock).
+func (e *env08) raceDiskOnly(rounds int, rng *rand.Rand) error {
+	const sig = "C08:probe-timeout-after-concurrent-status-of-disk-only-unit"
+	if e.isWedgeKnown(sig) {
+		return nil
+	}
+	cmds := []string{"work status %s", "work list %s", `{"command":"work","subcommand":"status","unitid":"%s"}`, "work status %s", "work cancel %s", "work status %s"}
+	for r := 0; r < rounds; r++ {
+		id, err := e.newDiskOnly(rng)
+		if err != nil {
+			return err
+		}
+		n := len(cmds)
+		conns := make([]*ctl.Conn, n)
+		for i := range conns {
+			if conns[i], err = ctl.DialUnix(e.d.Sock, e.replyTO); err != nil {
+				return fmt.Errorf("cannot open session: %w", err)
+			}
+		}
+		start := make(chan struct{})
+		replies := make([]string, n)
+		var wg sync.WaitGroup
+		for i := range conns {
+			wg.Add(1)
+			go func(i int) {
+				defer wg.Done()
+				line := []byte(fmt.Sprintf(cmds[i], id) + "\n")
+				<-start
+				if conns[i].Send(line) != nil {
+					return
+				}
+				l, err := conns[i].ReadLine(e.suspect)
+				if err == nil {
+					replies[i] = l
+				}
+			}(i)
+		}
+		close(start)
+		wg.Wait()
+		for _, k := range conns {
+			k.Close()
+		}
+		e.res.mu.Lock()
+		e.res.Evaluations++
+		e.res.mu.Unlock()
+		e.res.count("race_diskonly_rounds")
+		unanswered := 0
+		for i, l := range replies {
+			switch {
+			case l == "":
+				unanswered++
+			case !strings.HasPrefix(l, "{"):
+				e.res.violate("C08:concurrent-lookup-of-disk-only-unit-answered-error", fmt.Sprintf("%q sent by %d sessions at once for a unit that exists on disk: one was answered %q", fmt.Sprintf(cmds[i], id), n, trunc(l, 120)),
+					map[string]any{"mode": "racedisk"})
+			}
+		}
+		h, why := e.checkHealth()
+		switch h {
+		case crashed:
+			e.res.violate("C08:crash-in-race-disk-only", why, map[string]any{"mode": "racedisk"})
+
+			return e.recover()
+		case wedgedH:
+			e.wMu.Lock()
+			e.wedged[sig]++
+			e.wMu.Unlock()
+			e.res.violate(sig, fmt.Sprintf("%d sessions asked for the same disk-only unit %s at the same instant (round %d): %d were not answered within %v, and status/work list on fresh sessions are no longer answered: %s",
+				n, id, r+1, unanswered, e.suspect, why), map[string]any{"mode": "racedisk"})
+
+			return e.recover()
+		}
+		if unanswered > 0 {
+			e.res.count("race_diskonly_slow_answers")
+		}
+	}
+	e.markDistinct("race-diskonly")
+
+	return nil
+}
+
 // raceList: "work list" on some sessions while other sessions create and release units.  A well-formed work list must
 // be answered with the list whatever other sessions do (Isolation).
 func (e *env08) raceList(rng *rand.Rand) error {
@@ -1693,6 +1776,7 @@ func cmdC08(args []string) {
 	pairMode := fs.String("pairmode", "split", "alt | conc | both | split (alternate by index)")
 	maxPairs := fs.Int("maxpairs", 0, "0 = all")
 	replayFile := fs.String("replay", "", "replay file written by a previous run")
+	diskRounds := fs.Int("diskrounds", 10, "rounds of several sessions asking for one disk-only unit at the same instant")
 	mixedFile := fs.String("mixed", "", "NDJSON mixed sessions (JSON line, then another line) from TLC")
 	maxMixed := fs.Int("maxmixed", 0, "replay at most this many mixed sessions (seeded sample; 0 = all)")
 	budget := fs.Duration("budget", 0, "soft wall-clock budget for the pair phase (0 = none)")
@@ -1847,6 +1931,11 @@ func cmdC08(args []string) {
 			return
 		}
 	}
+	if err := e.raceDiskOnly(*diskRounds, rng); err != nil {
+		res.inconclusive("environment failure in the disk-only race: %v", err)
+
+		return
+	}
 	if err := e.raceList(rng); err != nil {
 		res.inconclusive("environment failure in the list race: %v", err)
 
@@ -1965,6 +2054,10 @@ func (e *env08) replay(path string) {
 			if err := e.runMixed(i, rp.Replay.Mixed); err != nil {
 				e.res.inconclusive("replay: %v", err)
 			}
+		}
+	case rp.Replay.Mode == "racedisk":
+		if err := e.raceDiskOnly(20, rand.New(rand.NewSource(e.seed))); err != nil {
+			e.res.inconclusive("replay: %v", err)
 		}
 	case rp.Replay.Mode == "racelist":
 		if err := e.raceList(rand.New(rand.NewSource(e.seed))); err != nil {
